@@ -38,7 +38,7 @@ var InputContract = []string{
 	"term frequency >= 1 and >= number of its locations; positions/offsets non-negative",
 	"a location's field name is empty or names a field carried by a document of the same batch (or _id)",
 	"terms of doc-value fields contain no 0xff byte",
-	"Field.Length() equals the sum of that field instance's term frequencies",
+	"Field.Length() equals the sum of that field instance's term frequencies (one C01 shape adds instances without terms that report a length of 1..9)",
 	"deletion bitmaps name only existing documents; fewer than 65535 fields",
 	"per field name the doc-values flag is constant across a workload",
 	"only inputs, schedules and fault points produced by the seeded generators are covered",
